@@ -717,10 +717,12 @@ class C15:
                         else:
                             inner = enc[:pos] + bytes([enc[pos] ^ 0x40]) + enc[pos + 1:]
                         outer, _ = encode_layer(rng, okind, inner)
+                        # one list, or one field line per layer (twelfth round: repeated identical lines collapsed)
+                        ann = [(b"Content-Encoding", tok + b", " + TOKEN_OF[okind])] if rng.chance(1, 2) else [(b"Content-Encoding", tok), (gen.randcase(rng, b"Content-Encoding"), TOKEN_OF[okind])]
                         if what == "cut":
-                            g.add("truncated-inner", "DECODE %d %s %s" % (tree, hdrs_field([(b"Content-Encoding", tok + b", " + TOKEN_OF[okind])]), hx(outer)), {"cut": pos})
+                            g.add("truncated-inner", "DECODE %d %s %s" % (tree, hdrs_field(ann), hx(outer)), {"cut": pos})
                         else:
-                            g.add("field", "DECODE %d %s %s" % (tree, hdrs_field([(b"Content-Encoding", tok + b", " + TOKEN_OF[okind])]), hx(outer)), {"pos": pos, "v": enc[pos] ^ 0x40})
+                            g.add("field", "DECODE %d %s %s" % (tree, hdrs_field(ann), hx(outer)), {"pos": pos, "v": enc[pos] ^ 0x40})
             groups.append(g)
         from . import srcdict
         for k3, size in enumerate(sorted(set(([16_777_216, 16_877_216] if tier == "quick" else [8_388_608, 16_777_216, 16_877_216, 33_554_432]) + [v + d for v in srcdict.load()["big"] for d in (0, 100_000)]))):
@@ -770,6 +772,15 @@ class C15:
             g = Group("mm%d" % k, "gzip-multi-member", {"a": a.hex(), "b": b2.hex(), "variants": [v[0] for v in variants], "intact": [v[2] for v in variants]})
             for what, tail, ok in variants:
                 g.add(what, "DECODE %d %s %s" % (tree, hdrs_field([(b"Content-Encoding", b"gzip")]), hx(ma + tail)), {"nocmp": True})
+            groups.append(g)
+            # the signature of the *first* member damaged, an intact member (or a stored copy of one) further on: nothing of it
+            # may come back (twelfth round: decoding started at the first 1F 8B found anywhere in the body)
+            g = Group("ms%d" % k, "damage-gzip", {"kind": "gzip", "data": a.hex(), "enc": ma.hex(), "layer": "gzip member with a damaged signature, followed by an intact member", "hlen": None})
+            for pos, v in ((0, 0x1e), (1, 0x8a), (0, 0x00), (1, 0x0b)):
+                bad = ma[:pos] + bytes([v]) + ma[pos + 1:]
+                g.add("field", "DECODE %d %s %s" % (tree, hdrs_field([(b"Content-Encoding", b"gzip")]), hx(bad + mb)), {"pos": pos, "v": v})
+                stored_inner = gzip_wrap(stored_deflate(mb, 65535), mb)[0]
+                g.add("field", "DECODE %d %s %s" % (tree, hdrs_field([(b"Content-Encoding", b"gzip")]), hx(stored_inner[:pos] + bytes([v]) + stored_inner[pos + 1:])), {"pos": pos, "v": v})
             groups.append(g)
         return groups
 
@@ -1042,10 +1053,17 @@ class C16:
             for body in LEGACY_BODIES:
                 text_group("lg%d" % j, "text-legacy", [(b"Content-Type", b"text/plain; charset=" + gen.randcase(rng, lab))], body)
                 j += 1
+        # one byte repeated: the bytes that become three-byte characters (0x80-0x9F under windows-1252) make the text three times
+        # the body -- every output-size estimate is wrong for them (twelfth round: a resume offset stale after the second refill)
+        for bval in (0x80, 0x85, 0x93, 0x97, 0x99, 0xA0, 0xE9, 0xFF, 0x41):
+            for reps in (255, 256, 600, 1000, 4096, 10000):
+                for ct in (b"text/plain", b"text/plain; charset=windows-1252", b"text/html; charset=latin1"):
+                    text_group("rb%d" % j, "text-sized", [(b"Content-Type", ct)], bytes([bval]) * reps)
+                    j += 1
         # body lengths at and around powers of two and the integer literals of the source, ending inside a multi-byte character
         # (a decoder fed block by block must still be told where the input ends)
         from . import srcdict
-        sizes = sorted(set(v + d for v in [256, 512, 1024, 2048, 4096, 8192, 16384, 65536] + [x for x in srcdict.load()["ints"] if 16 <= x <= 200000] for d in (-1, 0, 1)))
+        sizes = sorted(set(v * m + d for v in [256, 512, 1024, 2048, 4096, 8192, 16384, 65536] + [x for x in srcdict.load()["ints"] if 16 <= x <= 200000] for d in (-1, 0, 1) for m in (1, 2, 3) if v * m <= 400000))
         for sz in sizes:
             for lab, tail in ((b"utf-8", b"\xc3"), (b"utf-8", b"\xe2\x82"), (b"shift_jis", b"\x93"), (b"utf-8", "\u00e9".encode())):
                 if sz > len(tail):
